@@ -475,12 +475,12 @@ func amplifiers() [][]byte {
 	}
 	// datagrams of very many frames (a cap or a per-datagram table would show here): C06, C07
 	pli := frame(206, 1, []byte{1, 2, 3, 4, 5, 6, 7, 8})
-	for _, n := range []int{129, 150, 300, 1000} {
+	for _, n := range []int{17, 33, 129, 150, 300} {
 		dg := rep(pli, n)
 		dg = append(dg, frame(210, 7, []byte{9, 9, 9, 9})...)
 		out = append(out, dg)
 	}
-	out = append(out, rep([]byte{0x80, 199, 0, 0}, 2000))
+	out = append(out, rep([]byte{0x80, 199, 0, 0}, 600))
 	return out
 }
 
@@ -505,7 +505,11 @@ func repeated(g *gen.G) [][]byte {
 		if len(b) == 0 || len(b) > 200 {
 			continue
 		}
-		out = append(out, rep(b, 60000/len(b)))
+		k := 60000 / len(b)
+		if k > 130 {
+			k = 130
+		}
+		out = append(out, rep(b, k))
 	}
 	return out
 }
